@@ -26,6 +26,8 @@ TECHNIQUE += '; construction contracts interpreted on stand-ins (untyped rule ke
 LEVEL_TEXT += ' Added clauses: see technique (C07.R5).'
 TECHNIQUE += '; dispatch namespace of the framework walkers (no framework method under the walk_ prefix other than the generic child traversal)'
 LEVEL_TEXT += ' Added clause: no model class name is captured by a helper of the walker framework.'
+TECHNIQUE += '; _instanceof always constructs'
+LEVEL_TEXT += ' Added clause: a typed rule constructs a new node also when its AST already is an instance of the class.'
 LEVEL_NOTE = 'Eager interpretation of generators (a generator call whose values are not consumed contributes nothing, as in Python).'
 EXPLANATION = ('Static analysis of /repo sources, TatSu not imported. The dfs inside Node._cached_children is interpreted by the '
                'whitelisted evaluator; walkers are checked structurally.')
